@@ -283,34 +283,46 @@ theorem TensorInv.step (gen : NameGen) (w0 : TWorld) :
 
 /-! ### refinement: default generator, no refusing tensor = the plain model -/
 
-theorem setNameT_unfrozen (w : TWorld) (v : Nat) (new : String) (hf : ∀ t, w.frozen t = false) :
+/-- no tensor that backs a value refuses a new name -/
+def FixStX.NoFz (st : FixStX) : Prop := ∀ u t, st.constOf u = some t → st.frozen t = false
+def TWorld.NoFz (w : TWorld) : Prop := ∀ u t, w.constOf u = some t → w.frozen t = false
+
+/-- the tensor links and refusals are the same in two states -/
+def FzEq (st st' : FixStX) : Prop := st'.frozen = st.frozen ∧ st'.constOf = st.constOf
+
+theorem FzEq.refl (st : FixStX) : FzEq st st := ⟨rfl, rfl⟩
+theorem FzEq.trans {a b c : FixStX} (h1 : FzEq a b) (h2 : FzEq b c) : FzEq a c := ⟨h2.1.trans h1.1, h2.2.trans h1.2⟩
+theorem FixStX.NoFz.of_eq {st st' : FixStX} (h : st.NoFz) (e : FzEq st st') : st'.NoFz :=
+  fun u t hu => by rw [e.1]; exact h u t (e.2 ▸ hu)
+
+theorem setNameT_unfrozen (w : TWorld) (v : Nat) (new : String) (hf : ∀ t, w.constOf v = some t → w.frozen t = false) :
     (w.setNameT v new).1.toWorld = (w.toWorld.setName v new).1 ∧ (w.setNameT v new).2 = (w.toWorld.setName v new).2
-    ∧ (w.setNameT v new).1.frozen = w.frozen := by
+    ∧ (w.setNameT v new).1.frozen = w.frozen ∧ (w.setNameT v new).1.constOf = w.constOf := by
   unfold TWorld.setNameT
   by_cases h1 : w.vname v = some new
   · have : w.toWorld.setName v new = (w.toWorld, false) := by unfold World.setName; rw [if_pos h1]
     simp [h1, this]
   · rw [if_neg h1]
     by_cases h2 : w.toWorld.nameGuard v new = true
-    · rw [if_pos h2, nameGuard_raises h1 h2]; exact ⟨rfl, rfl, rfl⟩
+    · rw [if_pos h2, nameGuard_raises h1 h2]; exact ⟨rfl, rfl, rfl, rfl⟩
     · rw [if_neg h2]
       cases hc : w.constOf v with
-      | none => exact ⟨rfl, rfl, rfl⟩
-      | some t => simp [hf t]
+      | none => exact ⟨rfl, rfl, rfl, rfl⟩
+      | some t => simp [hf t hc]
 
-theorem renameToX_sim (st : FixStX) (v : Nat) (p : String) (hf : ∀ t, st.frozen t = false) :
-    (renameToX st v p).toFixSt = renameTo st.toFixSt v p ∧ (renameToX st v p).frozen = st.frozen := by
-  obtain ⟨h1, h2, h3⟩ := setNameT_unfrozen st.tw v (findUnique p (topOf st.vstack) st.resV (st.vcnt p)).1 hf
+theorem renameToX_sim (st : FixStX) (v : Nat) (p : String) (hf : st.NoFz) :
+    (renameToX st v p).toFixSt = renameTo st.toFixSt v p ∧ FzEq st (renameToX st v p) := by
+  obtain ⟨h1, h2, h3, h4⟩ := setNameT_unfrozen st.tw v (findUnique p (topOf st.vstack) st.resV (st.vcnt p)).1 (hf v)
   unfold renameToX renameTo
   simp only []
   by_cases hr : (st.toWorld.setName v (findUnique p (topOf st.vstack) st.resV (st.vcnt p)).1).2 = true
   · have hr' : (st.tw.setNameT v (findUnique p (topOf st.vstack) st.resV (st.vcnt p)).1).2 = true := h2.trans hr
     rw [if_pos hr', if_pos hr]
-    exact ⟨by simp only [h1]; rfl, h3⟩
+    exact ⟨by simp only [h1]; rfl, h3, h4⟩
   · have hr' : ¬ (st.tw.setNameT v (findUnique p (topOf st.vstack) st.resV (st.vcnt p)).1).2 = true := by
       rw [h2]; exact hr
     rw [if_neg hr', if_neg hr]
-    exact ⟨by simp only [h1]; rfl, h3⟩
+    exact ⟨by simp only [h1]; rfl, h3, h4⟩
 
 theorem simpleGen_v_falsy {i : Nat} {nm : Option String} (h : truthy nm = false) : simpleGen.v i nm = "v" := by
   simp [simpleGen, h]
@@ -321,15 +333,15 @@ theorem simpleGen_n_falsy {i : Nat} {nm : Option String} (h : truthy nm = false)
 theorem simpleGen_n_truthy {i : Nat} {nm : Option String} (h : truthy nm = true) : simpleGen.n i nm = nm.getD "" := by
   simp [simpleGen, h]
 
-theorem processValueX_sim (st : FixStX) (v : Nat) (hf : ∀ t, st.frozen t = false) :
+theorem processValueX_sim (st : FixStX) (v : Nat) (hf : st.NoFz) :
     (processValueX simpleGen st v).toFixSt = processValue st.toFixSt v
-    ∧ (processValueX simpleGen st v).frozen = st.frozen := by
+    ∧ FzEq st (processValueX simpleGen st v) := by
   unfold processValueX processValue
   by_cases hr : st.raised = true
-  · simp only [if_pos hr]; exact ⟨by first | trivial | rfl, by first | trivial | rfl⟩
+  · simp only [if_pos hr]; exact ⟨by first | trivial | rfl, FzEq.refl _⟩
   · simp only [if_neg hr]
     by_cases hs : st.seen.contains v = true
-    · simp only [if_pos hs]; exact ⟨by first | trivial | rfl, by first | trivial | rfl⟩
+    · simp only [if_pos hs]; exact ⟨by first | trivial | rfl, FzEq.refl _⟩
     · simp only [if_neg hs]
       by_cases ht : (!truthy (st.vname v)) = true
       · simp only [if_pos ht]
@@ -337,125 +349,127 @@ theorem processValueX_sim (st : FixStX) (v : Nat) (hf : ∀ t, st.frozen t = fal
         exact renameToX_sim st v "v" hf
       · simp only [if_neg ht]
         by_cases hc : (!(topOf st.vstack).contains ((st.vname v).getD "")) = true
-        · simp only [if_pos hc]; exact ⟨by first | trivial | rfl, by first | trivial | rfl⟩
+        · simp only [if_pos hc]; exact ⟨by first | trivial | rfl, ⟨rfl, rfl⟩⟩
         · simp only [if_neg hc]
           rw [simpleGen_v_truthy (by simpa using ht)]
           exact renameToX_sim st v _ hf
 
 theorem fixNodeNameX_sim (st : FixStX) (n : Nat) :
     (fixNodeNameX simpleGen st n).toFixSt = fixNodeName st.toFixSt n
-    ∧ (fixNodeNameX simpleGen st n).frozen = st.frozen := by
+    ∧ FzEq st (fixNodeNameX simpleGen st n) := by
   unfold fixNodeNameX fixNodeName
   by_cases hr : st.raised = true
-  · simp only [if_pos hr]; exact ⟨by first | trivial | rfl, by first | trivial | rfl⟩
+  · simp only [if_pos hr]; exact ⟨by first | trivial | rfl, FzEq.refl _⟩
   · simp only [if_neg hr]
     by_cases ht : (!truthy (st.nname n)) = true
     · simp only [if_pos ht]
       rw [simpleGen_n_falsy (by simpa using ht)]
-      exact ⟨by first | trivial | rfl, by first | trivial | rfl⟩
+      exact ⟨by first | trivial | rfl, ⟨rfl, rfl⟩⟩
     · simp only [if_neg ht]
       by_cases hc : (!(topOf st.nstack).contains ((st.nname n).getD "")) = true
-      · simp only [if_pos hc]; exact ⟨by first | trivial | rfl, by first | trivial | rfl⟩
+      · simp only [if_pos hc]; exact ⟨by first | trivial | rfl, ⟨rfl, rfl⟩⟩
       · simp only [if_neg hc]
         rw [simpleGen_n_truthy (by simpa using ht)]
-        exact ⟨by first | trivial | rfl, by first | trivial | rfl⟩
+        exact ⟨by first | trivial | rfl, ⟨rfl, rfl⟩⟩
 
-theorem processValuesX_sim : ∀ (vs : List Nat) (st : FixStX), (∀ t, st.frozen t = false) →
+theorem processValuesX_sim : ∀ (vs : List Nat) (st : FixStX), st.NoFz →
     (processValuesX simpleGen st vs).toFixSt = processValues st.toFixSt vs
-    ∧ (processValuesX simpleGen st vs).frozen = st.frozen
-  | [], _, _ => ⟨rfl, rfl⟩
+    ∧ FzEq st (processValuesX simpleGen st vs)
+  | [], _, _ => ⟨rfl, FzEq.refl _⟩
   | v :: vs, st, hf => by
     have e1 : processValuesX simpleGen st (v :: vs) = processValuesX simpleGen (processValueX simpleGen st v) vs := by
       simp [processValuesX]
     have e2 : processValues st.toFixSt (v :: vs) = processValues (processValue st.toFixSt v) vs := by
       simp [processValues]
     obtain ⟨a, b⟩ := processValueX_sim st v hf
-    obtain ⟨c, d⟩ := processValuesX_sim vs (processValueX simpleGen st v) (by rw [b]; exact hf)
-    rw [e1, e2, c, a, d, b]
-    exact ⟨rfl, rfl⟩
+    obtain ⟨c, d⟩ := processValuesX_sim vs (processValueX simpleGen st v) (hf.of_eq b)
+    rw [e1, e2, c, a]
+    exact ⟨rfl, b.trans d⟩
 
-theorem enterGraphX_sim (st : FixStX) (g : Nat) (isG : Bool) (ins outs bouts : List Nat) (hf : ∀ t, st.frozen t = false) :
+theorem enterGraphX_sim (st : FixStX) (g : Nat) (isG : Bool) (ins outs bouts : List Nat) (hf : st.NoFz) :
     (enterGraphX simpleGen st g isG ins outs bouts).toFixSt = enterGraph st.toFixSt g isG ins outs bouts
-    ∧ (enterGraphX simpleGen st g isG ins outs bouts).frozen = st.frozen := by
+    ∧ FzEq st (enterGraphX simpleGen st g isG ins outs bouts) := by
   unfold enterGraphX enterGraph
   by_cases hr : st.raised = true
-  · simp only [if_pos hr]; exact ⟨by first | trivial | rfl, by first | trivial | rfl⟩
+  · simp only [if_pos hr]; exact ⟨by first | trivial | rfl, FzEq.refl _⟩
   · simp only [if_neg hr]
     generalize hs0 : ({ st with vstack := topOf st.vstack :: st.vstack, nstack := [] :: st.nstack } : FixStX) = s0
     have e0 : s0.toFixSt = { st.toFixSt with vstack := topOf st.vstack :: st.vstack, nstack := [] :: st.nstack } := by
       subst hs0; rfl
-    have f0 : ∀ t, s0.frozen t = false := by subst hs0; exact hf
+    have z0 : FzEq st s0 := by subst hs0; exact ⟨rfl, rfl⟩
+    have f0 : s0.NoFz := hf.of_eq z0
     rw [← e0]
     obtain ⟨a1, b1⟩ := processValuesX_sim ins s0 f0
-    have f1 : ∀ t, (processValuesX simpleGen s0 ins).frozen t = false := by rw [b1]; exact f0
+    have f1 := f0.of_eq b1
     obtain ⟨a2, b2⟩ := processValuesX_sim outs _ f1
-    have f2 : ∀ t, (processValuesX simpleGen (processValuesX simpleGen s0 ins) outs).frozen t = false := by rw [b2]; exact f1
+    have f2 := f1.of_eq b2
     rw [← a1, ← a2]
     cases isG with
     | false =>
       simp only [Bool.false_eq_true, if_false]
       obtain ⟨a4, b4⟩ := processValuesX_sim bouts _ f2
-      exact ⟨a4, by rw [b4, b2, b1]; subst hs0; rfl⟩
+      exact ⟨a4, z0.trans (b1.trans (b2.trans b4))⟩
     | true =>
       simp only [if_true]
       obtain ⟨a3, b3⟩ := processValuesX_sim
         (((processValuesX simpleGen (processValuesX simpleGen s0 ins) outs).dicts g).map (·.2)) _ f2
-      have f3 : ∀ t, (processValuesX simpleGen (processValuesX simpleGen (processValuesX simpleGen s0 ins) outs)
-          (((processValuesX simpleGen (processValuesX simpleGen s0 ins) outs).dicts g).map (·.2))).frozen t = false := by
-        rw [b3]; exact f2
+      have f3 := f2.of_eq b3
       obtain ⟨a4, b4⟩ := processValuesX_sim bouts _ f3
-      refine ⟨?_, by rw [b4, b3, b2, b1]; subst hs0; rfl⟩
+      refine ⟨?_, z0.trans (b1.trans (b2.trans (b3.trans b4)))⟩
       rw [a4, a3]
 
 theorem exitGraphX_sim (st : FixStX) :
-    (exitGraphX st).toFixSt = exitGraph st.toFixSt ∧ (exitGraphX st).frozen = st.frozen := by
+    (exitGraphX st).toFixSt = exitGraph st.toFixSt ∧ FzEq st (exitGraphX st) := by
   unfold exitGraphX exitGraph
-  split <;> exact ⟨rfl, rfl⟩
+  split <;> exact ⟨rfl, rfl, rfl⟩
 
-theorem runTrX_sim : ∀ (t : Tr) (st : FixStX), (∀ t, st.frozen t = false) →
-    (runTrX simpleGen t st).toFixSt = runTr t st.toFixSt ∧ (runTrX simpleGen t st).frozen = st.frozen := by
+theorem runTrX_sim : ∀ (t : Tr) (st : FixStX), st.NoFz →
+    (runTrX simpleGen t st).toFixSt = runTr t st.toFixSt ∧ FzEq st (runTrX simpleGen t st) := by
   intro t
   induction t with
-  | nil => intro st _; exact ⟨by first | trivial | rfl, by first | trivial | rfl⟩
+  | nil => intro st _; exact ⟨by first | trivial | rfl, FzEq.refl _⟩
   | node n ins outs subs rest ihs ihr =>
     intro st hf
     simp only [runTrX, runTr, visitNodeX, visitNode]
     obtain ⟨a1, b1⟩ := fixNodeNameX_sim st n
-    obtain ⟨a2, b2⟩ := processValuesX_sim (nodeVals ins outs) (fixNodeNameX simpleGen st n) (by rw [b1]; exact hf)
-    obtain ⟨a3, b3⟩ := ihs (processValuesX simpleGen (fixNodeNameX simpleGen st n) (nodeVals ins outs)) (by rw [b2, b1]; exact hf)
-    obtain ⟨a4, b4⟩ := ihr _ (by rw [b3, b2, b1]; exact hf)
+    obtain ⟨a2, b2⟩ := processValuesX_sim (nodeVals ins outs) (fixNodeNameX simpleGen st n) (hf.of_eq b1)
+    obtain ⟨a3, b3⟩ := ihs (processValuesX simpleGen (fixNodeNameX simpleGen st n) (nodeVals ins outs)) ((hf.of_eq b1).of_eq b2)
+    obtain ⟨a4, b4⟩ := ihr _ (((hf.of_eq b1).of_eq b2).of_eq b3)
     rw [a4, a3, a2, a1]
-    exact ⟨rfl, by rw [b4, b3, b2, b1]⟩
+    exact ⟨rfl, b1.trans (b2.trans (b3.trans b4))⟩
   | graph g isG ins outs body rest ihb ihr =>
     intro st hf
     simp only [runTrX, runTr]
     obtain ⟨a1, b1⟩ := enterGraphX_sim st g isG ins outs (bodyOuts body) hf
     obtain ⟨a2, b2⟩ := enterGraphX_sim (enterGraphX simpleGen st g isG ins outs (bodyOuts body)) g isG ins outs (bodyOuts body)
-      (by rw [b1]; exact hf)
-    obtain ⟨a3, b3⟩ := ihb _ (by rw [b2, b1]; exact hf)
+      (hf.of_eq b1)
+    obtain ⟨a3, b3⟩ := ihb _ ((hf.of_eq b1).of_eq b2)
     obtain ⟨a4, b4⟩ := exitGraphX_sim (runTrX simpleGen body
       (enterGraphX simpleGen (enterGraphX simpleGen st g isG ins outs (bodyOuts body)) g isG ins outs (bodyOuts body)))
     obtain ⟨a5, b5⟩ := exitGraphX_sim (exitGraphX (runTrX simpleGen body
       (enterGraphX simpleGen (enterGraphX simpleGen st g isG ins outs (bodyOuts body)) g isG ins outs (bodyOuts body))))
-    obtain ⟨a6, b6⟩ := ihr _ (by rw [b5, b4, b3, b2, b1]; exact hf)
+    have z5 := b1.trans (b2.trans (b3.trans (b4.trans b5)))
+    obtain ⟨a6, b6⟩ := ihr _ (hf.of_eq z5)
     rw [a6, a5, a4, a3, a2, a1]
-    exact ⟨rfl, by rw [b6, b5, b4, b3, b2, b1]⟩
+    exact ⟨rfl, z5.trans b6⟩
 
-theorem fixTopX_sim (w : TWorld) (t : Top) (glog : List (Bool × Nat)) (hf : ∀ t, w.frozen t = false) :
-    (fixTopX simpleGen w t glog).toFixSt = fixTop w.toWorld t ∧ (fixTopX simpleGen w t glog).frozen = w.frozen := by
+theorem fixTopX_sim (w : TWorld) (t : Top) (glog : List (Bool × Nat)) (hf : w.NoFz) :
+    (fixTopX simpleGen w t glog).toFixSt = fixTop w.toWorld t ∧ (fixTopX simpleGen w t glog).tw.NoFz := by
   unfold fixTopX fixTop
   simp only []
   have e0 : (initX w t glog).toFixSt =
       { toWorld := w.toWorld, resV := (collectTr w.toWorld t.tr ([], [])).1, resN := (collectTr w.toWorld t.tr ([], [])).2 } := rfl
-  obtain ⟨a1, b1⟩ := enterGraphX_sim (initX w t glog) t.gid t.isGraph t.ins t.outs (bodyOuts t.body) hf
-  obtain ⟨a2, b2⟩ := runTrX_sim t.body _ (by rw [b1]; exact hf)
+  have f0 : (initX w t glog).NoFz := hf
+  obtain ⟨a1, b1⟩ := enterGraphX_sim (initX w t glog) t.gid t.isGraph t.ins t.outs (bodyOuts t.body) f0
+  obtain ⟨a2, b2⟩ := runTrX_sim t.body _ (f0.of_eq b1)
   obtain ⟨a3, b3⟩ := exitGraphX_sim (runTrX simpleGen t.body
     (enterGraphX simpleGen (initX w t glog) t.gid t.isGraph t.ins t.outs (bodyOuts t.body)))
   rw [a3, a2, a1, e0]
-  exact ⟨rfl, by rw [b3, b2, b1]; rfl⟩
+  exact ⟨rfl, ((f0.of_eq b1).of_eq b2).of_eq b3⟩
 
-/-- `fixModelX` with the default generator on a world without refusing tensors is `fixModel` -/
-theorem fixModelX_sim : ∀ (tops : List Top) (w : TWorld) (glog : List (Bool × Nat)), (∀ t, w.frozen t = false) →
+/-- `fixModelX` with the default generator on a world in which no tensor that backs a value refuses a name is
+`fixModel` -/
+theorem fixModelX_sim : ∀ (tops : List Top) (w : TWorld) (glog : List (Bool × Nat)), w.NoFz →
     (fixModelX simpleGen w glog tops).w.toWorld = (fixModel w.toWorld tops).1
     ∧ (fixModelX simpleGen w glog tops).modified = (fixModel w.toWorld tops).2.1
     ∧ (fixModelX simpleGen w glog tops).raised = (fixModel w.toWorld tops).2.2
@@ -472,9 +486,119 @@ theorem fixModelX_sim : ∀ (tops : List Top) (w : TWorld) (glog : List (Bool ×
       exact ⟨hw, hm, by first | trivial | rfl⟩
     · have h' : ¬ (fixTopX simpleGen w t glog).raised = true := by rw [hr]; exact h
       simp only [if_neg h, if_neg h']
-      obtain ⟨c1, c2, c3⟩ := fixModelX_sim ts (fixTopX simpleGen w t glog).tw (fixTopX simpleGen w t glog).glog
-        (by intro t'; show (fixTopX simpleGen w t glog).frozen t' = false; rw [b]; exact hf t')
+      obtain ⟨c1, c2, c3⟩ := fixModelX_sim ts (fixTopX simpleGen w t glog).tw (fixTopX simpleGen w t glog).glog b
       rw [hw] at c1 c2 c3
       exact ⟨c1, by rw [c2, hm], c3⟩
+
+/-! ### objects the generator was never asked about are untouched -/
+
+theorem setName_vname_other (w : World) {v u : Nat} (new : String) (h : u ≠ v) : (w.setName v new).1.vname u = w.vname u := by
+  unfold World.setName
+  repeat' split
+  all_goals simp [upd, h]
+
+/-- `Value.name = new` touches the name of `v`, the name of the tensor backing `v`, and nothing else -/
+theorem setNameT_frame (w : TWorld) (v : Nat) (new : String) :
+    (∀ u, u ≠ v → (w.setNameT v new).1.vname u = w.vname u)
+    ∧ (w.setNameT v new).1.constOf = w.constOf
+    ∧ (∀ t, w.constOf v ≠ some t → (w.setNameT v new).1.tname t = w.tname t)
+    ∧ (w.setNameT v new).1.nname = w.nname := by
+  have hv : ∀ u, u ≠ v → (w.toWorld.setName v new).1.vname u = w.vname u := fun u h => setName_vname_other _ new h
+  have hn : (w.toWorld.setName v new).1.nname = w.nname := by
+    unfold World.setName
+    repeat' split
+    all_goals rfl
+  unfold TWorld.setNameT
+  split
+  · exact ⟨fun _ _ => rfl, rfl, fun _ _ => rfl, rfl⟩
+  · split
+    · exact ⟨fun _ _ => rfl, rfl, fun _ _ => rfl, rfl⟩
+    · split
+      · rename_i t hc
+        split
+        · exact ⟨fun _ _ => rfl, rfl, fun _ _ => rfl, rfl⟩
+        · refine ⟨hv, rfl, ?_, hn⟩
+          intro t' ht'
+          have : t' ≠ t := fun e => ht' (by rw [hc, e])
+          simp [upd, this]
+      · exact ⟨hv, rfl, fun _ _ => rfl, hn⟩
+
+/-- a value (node) the generator was never asked about has its old name, and a tensor none of whose values was
+handed to the generator has its old name -/
+def LogInv (w0 : TWorld) (w : TWorld) (glog : List (Bool × Nat)) : Prop :=
+  (∀ v, (false, v) ∉ glog → w.vname v = w0.vname v)
+  ∧ w.constOf = w0.constOf
+  ∧ (∀ t, (∀ v, w0.constOf v = some t → (false, v) ∉ glog) → w.tname t = w0.tname t)
+  ∧ (∀ n, (true, n) ∉ glog → w.nname n = w0.nname n)
+
+theorem LogInv.rename {w0 : TWorld} {st : FixStX} (h : LogInv w0 st.tw st.glog) (v : Nat) (p : String) :
+    LogInv w0 (renameToX st v p).tw (renameToX st v p).glog := by
+  obtain ⟨h1, h2, h3, h4⟩ := h
+  obtain ⟨f1, f2, f3, f4⟩ := setNameT_frame st.tw v (findUnique p (topOf st.vstack) st.resV (st.vcnt p)).1
+  have hw : (renameToX st v p).tw = (st.tw.setNameT v (findUnique p (topOf st.vstack) st.resV (st.vcnt p)).1).1 := by
+    unfold renameToX; simp only []; split <;> rfl
+  have hl : (renameToX st v p).glog = (false, v) :: st.glog := by
+    unfold renameToX; simp only []; split <;> rfl
+  rw [hw, hl]
+  refine ⟨?_, f2.trans h2, ?_, ?_⟩
+  · intro u hu
+    simp only [List.mem_cons, Prod.mk.injEq, true_and, not_or] at hu
+    rw [f1 u hu.1]; exact h1 u hu.2
+  · intro t ht
+    have hne : st.tw.constOf v ≠ some t := by
+      intro e
+      exact ht v (h2 ▸ e) List.mem_cons_self
+    rw [f3 t hne]
+    exact h3 t (fun u hu hin => ht u hu (List.mem_cons_of_mem _ hin))
+  · intro n hn
+    rw [f4]
+    exact h4 n (fun hin => hn (List.mem_cons_of_mem _ hin))
+
+theorem LogInv.step (gen : NameGen) (w0 : TWorld) : StepInv gen (fun st => LogInv w0 st.tw st.glog) where
+  pv := fun st v h => by
+    unfold processValueX
+    split
+    · exact h
+    · split
+      · exact h
+      · split
+        · exact h.rename v _
+        · dsimp only
+          split
+          · exact h
+          · exact h.rename v _
+  fn := fun st n h => by
+    obtain ⟨h1, h2, h3, h4⟩ := h
+    have key : ∀ (f : String), LogInv w0 { st.tw with nname := upd st.nname n (some f) } ((true, n) :: st.glog) := by
+      intro f
+      refine ⟨fun v hv => h1 v (fun hin => hv (List.mem_cons_of_mem _ hin)), h2,
+        fun t ht => h3 t (fun v hv hin => ht v hv (List.mem_cons_of_mem _ hin)), ?_⟩
+      intro m hm
+      simp only [List.mem_cons, Prod.mk.injEq, true_and, not_or] at hm
+      show upd st.nname n (some f) m = w0.nname m
+      rw [upd_ne _ _ hm.1]; exact h4 m hm.2
+    unfold fixNodeNameX
+    split
+    · exact ⟨h1, h2, h3, h4⟩
+    · dsimp only
+      split
+      · exact key _
+      · split
+        · exact ⟨h1, h2, h3, h4⟩
+        · exact key _
+  stk := fun _ _ _ h => h
+
+/-- a property of the world and of the log of generator calls preserved by every step is preserved by the pass, in
+every outcome -/
+theorem fixModelX_inv2 {gen : NameGen} {Q : TWorld → List (Bool × Nat) → Prop} (h : StepInv gen (fun st => Q st.tw st.glog)) :
+    ∀ (tops : List Top) (w : TWorld) (glog : List (Bool × Nat)), Q w glog →
+      Q (fixModelX gen w glog tops).w (fixModelX gen w glog tops).glog
+  | [], _, _, hq => hq
+  | t :: ts, w, glog, hq => by
+    have h1 : Q (fixTopX gen w t glog).tw (fixTopX gen w t glog).glog := fixTopX_inv h w t glog hq
+    simp only [fixModelX]
+    split
+    · exact h1
+    · exact fixModelX_inv2 h ts _ _ h1
 
 end IrVerif.Names
